@@ -33,7 +33,7 @@ pub fn run(args: &Args) -> Report {
         "C11",
         &args.tier,
         args.seed,
-        "complete product store capability (full, non-discoverable only, forced) x residentKey (absent, discouraged, preferred, required) x requireResidentKey x credProps (absent, false, true) at client level and rk x capability at CTAP level, each followed by an assertion with the new credential; distinct by the tuple; every tuple is non-trivial (finite product)",
+        "complete product store capability (full, non-discoverable only, forced) x residentKey (absent, discouraged, preferred, required) x requireResidentKey x credProps (absent, false, true) x signature counters on/off x PRF requested-and-configured or not at client level and rk x capability at CTAP level, each followed by an assertion with the new credential; distinct by the tuple; every tuple is non-trivial (finite product)",
     );
     rep.exhaustive = true;
     let only = replay_index(args);
@@ -44,19 +44,20 @@ pub fn run(args: &Args) -> Report {
         for rk_req in [None, Some(ResidentKeyRequirement::Discouraged), Some(ResidentKeyRequirement::Preferred), Some(ResidentKeyRequirement::Required)] {
             for require in [false, true] {
                 for cred_props in [None, Some(false), Some(true)] {
+                  for (counters, prf) in [(false, false), (true, false), (false, true), (true, true)] {
                     index += 1;
                     if only.map_or(false, |o| o != index) {
                         continue;
                     }
                     rep.eval();
-                    let case = json!({"index": index, "level": "client", "capability": format!("{disc:?}"), "residentKey": rk_req.map(|r| format!("{r:?}")), "requireResidentKey": require, "credProps": cred_props});
+                    let case = json!({"index": index, "level": "client", "capability": format!("{disc:?}"), "residentKey": rk_req.map(|r| format!("{r:?}")), "requireResidentKey": require, "credProps": cred_props, "signature_counters": counters, "prf_requested_and_configured": prf});
                     rep.nontrivial(fnv_str(&case.to_string()));
                     let want_rk = map_rk(rk_req, require, supports_rk);
                     let refused = want_rk && !supports_rk;
                     let discoverable = disc.discoverable(want_rk);
                     let r = catch(|| {
                         let rig = Rig::ok(disc);
-                        let mut client = rig.client(AuthCfg::default());
+                        let mut client = rig.client(AuthCfg { counters, hmac: if prf { crate::util::HmacCfg::WithoutUv } else { crate::util::HmacCfg::None }, hmac_mc: prf, ..Default::default() });
                         let mut opts = creation_options(Some("example.com"), b"the-user", "n", &[1u8; 16], vec![pk_param(coset::iana::Algorithm::ES256)]);
                         opts.public_key.authenticator_selection = Some(AuthenticatorSelectionCriteria {
                             authenticator_attachment: None,
@@ -64,8 +65,12 @@ pub fn run(args: &Args) -> Report {
                             require_resident_key: require,
                             user_verification: UserVerificationRequirement::Preferred,
                         });
-                        if cred_props.is_some() {
-                            opts.public_key.extensions = Some(AuthenticationExtensionsClientInputs { cred_props, ..Default::default() });
+                        if cred_props.is_some() || prf {
+                            opts.public_key.extensions = Some(AuthenticationExtensionsClientInputs {
+                                cred_props,
+                                prf: prf.then(|| passkey_types::webauthn::AuthenticationExtensionsPrfInputs { eval: Some(passkey_types::webauthn::AuthenticationExtensionsPrfValues { first: vec![1, 2, 3].into(), second: None }), eval_by_credential: None }),
+                                ..Default::default()
+                            });
                         }
                         let origin = url("https://example.com");
                         let reg = block_on(client.register(&origin, opts, DefaultClientData));
@@ -83,9 +88,10 @@ pub fn run(args: &Args) -> Report {
                             }
                             Err(_) => None,
                         };
-                        (reg, events, snap, auth, auth2)
+                        let snap_after = rig.store.snapshot();
+                        (reg, events, snap, auth, auth2, snap_after)
                     });
-                    let (reg, events, snap, auth, auth2) = match r {
+                    let (reg, events, snap, auth, auth2, snap_after) = match r {
                         Ok(v) => v,
                         Err((sig, d)) => {
                             rep.violate(&format!("client: {sig}"), d, case);
@@ -147,6 +153,11 @@ pub fn run(args: &Args) -> Report {
                                         Some(Err(e)) => rep.violate("client: follow-up assertion failed", format!("{e:?}"), case.clone()),
                                         None => {}
                                     }
+                                    if let Some(a) = snap_after.iter().find(|x| x.id == s.id) {
+                                        if a.user_handle != s.user_handle {
+                                            rep.violate("client: the stored user handle changed after assertions", format!("before {:?} after {:?}", s.user_handle.is_some(), a.user_handle.is_some()), case.clone());
+                                        }
+                                    }
                                     match auth2 {
                                         Some(Ok(uh)) => {
                                             rep.count("unverified_assertions_checked");
@@ -162,6 +173,7 @@ pub fn run(args: &Args) -> Report {
                         }
                     }
                     rep.sample_class(&format!("client/{disc:?}/{}", if refused { "refused" } else { "ok" }), case);
+                  }
                 }
             }
         }
